@@ -190,3 +190,7 @@ pub mod verif;
 /// Verification hooks for skill aggregation; only present with `--cfg rosu_pp_verif`.
 #[cfg(rosu_pp_verif)]
 pub mod verif_skills;
+
+/// Verification hooks for numeric helper functions; only present with `--cfg rosu_pp_verif`.
+#[cfg(rosu_pp_verif)]
+pub mod verif_special;
